@@ -359,7 +359,17 @@ theorem PIo.cleanupContexts (h : PIo fl s) : PIo fl (cleanupContexts s) := by
 
 theorem PIo.frame {s s' : BSt} (h : PIo fl s) (hc : core s' = core s) : PIo fl s' := h.same (Same.ofCore hc)
 
-theorem PIo.cleanupLoggers (h : PIo fl s) : PIo fl (cleanupLoggers s) := by
+theorem PIo.reapSinksInj {inj : BSt → Nat → BSt} (hi : InjOK inj) (l : List Nat) (s : BSt) (h : PIo fl s) :
+    PIo fl (reapSinksInj inj s l) := by
+  unfold Backend.reapSinksInj
+  apply foldl_inv (fun x : BSt => PIo fl x) _ _ _ h
+  intro b sid hb
+  split
+  · apply hi.pio
+    exact hb.frame rfl
+  · exact hb
+
+theorem PIo.cleanupLoggers {inj : BSt → Nat → BSt} (hi : InjOK inj) (h : PIo fl s) : PIo fl (cleanupLoggers inj s) := by
   unfold Backend.cleanupLoggers
   split
   · exact h
@@ -370,7 +380,7 @@ theorem PIo.cleanupLoggers (h : PIo fl s) : PIo fl (cleanupLoggers s) := by
       split
       · exact hacc
       · split
-        · exact PIo.frame hacc.allEmpty (by rw [core_reapSinks]; rfl)
+        · exact PIo.reapSinksInj hi _ _ (hacc.allEmpty.frame rfl)
         · exact PIo.frame hacc.allEmpty rfl
     · intro b a hb
       split
